@@ -58,8 +58,182 @@ theorem removeSpec_perm (xs : List Id) (i : Nat) :
 
 theorem removeSpec_len (xs : List Id) (i : Nat) : (removeSpec xs i).final.length ≤ xs.length := by
   unfold removeSpec; split <;> simp [List.length_eraseIdx]
+  split <;> omega
 
 theorem swapRemoveSpec_len (xs : List Id) (i : Nat) : (swapRemoveSpec xs i).final.length ≤ xs.length := by
-  unfold swapRemoveSpec; split <;> simp; omega
+  unfold swapRemoveSpec; split <;> simp
+
+theorem set_perm (ini : List Id) (i : Nat) (l : Id) (h : i < ini.length) :
+    (ini.set i l ++ [ini[i]]).Perm (ini ++ [l]) := by
+  rw [List.set_eq_take_append_cons_drop, if_pos h]
+  have hx : ini = ini.take i ++ ini[i] :: ini.drop (i + 1) := by simp
+  conv => rhs; rw [hx]
+  simp only [List.append_assoc, List.cons_append]
+  refine List.Perm.append_left _ ?_
+  refine (List.Perm.cons _ (List.perm_append_singleton _ _)).trans ?_
+  refine (List.Perm.swap _ _ _).trans ?_
+  exact List.Perm.cons _ (List.perm_append_singleton _ _).symm
+
+theorem swapRemoveSpec_perm (xs : List Id) (i : Nat) :
+    ((swapRemoveSpec xs i).final ++ (swapRemoveSpec xs i).dropped ++ (swapRemoveSpec xs i).escaped).Perm xs := by
+  unfold swapRemoveSpec
+  by_cases h : i < xs.length
+  · have hne : xs ≠ [] := by intro h'; subst h'; simp at h
+    obtain ⟨ini, l, rfl⟩ : ∃ ini l, xs = ini ++ [l] := ⟨_, _, (List.dropLast_concat_getLast hne).symm⟩
+    rw [List.getElem?_eq_getElem h]
+    simp only [List.getLast?_append, List.getLast?_singleton, Option.some_or, List.append_nil]
+    by_cases hi : i < ini.length
+    · rw [List.set_append_left _ _ hi, List.dropLast_concat, List.getElem_append_left hi]
+      exact set_perm ini i l hi
+    · have : i = ini.length := by simp at h; omega
+      subst this
+      simp
+  · have : xs[i]? = none := by simp; omega
+    rw [this]; simp
+
+theorem clearSpec_perm (bombs : List Id) (xs : List Id) :
+    ((clearSpec bombs xs).final ++ (clearSpec bombs xs).dropped ++ (clearSpec bombs xs).escaped).Perm xs := by
+  simp [clearSpec]
+
+theorem pushSpec_perm (room : Bool) (xs : List Id) (id : Id) :
+    ((pushSpec room xs id).final ++ (pushSpec room xs id).dropped ++ (pushSpec room xs id).escaped).Perm (xs ++ [id]) := by
+  unfold pushSpec; split <;> simp
+
+theorem pushSpec_len (room : Bool) (xs : List Id) (id : Id) :
+    (pushSpec room xs id).final.length ≤ xs.length + (if room then 1 else 0) := by
+  unfold pushSpec; split <;> simp
+
+theorem insertSpec_perm (room : Bool) (xs : List Id) (i : Nat) (id : Id) :
+    ((insertSpec room xs i id).final ++ (insertSpec room xs i id).dropped ++ (insertSpec room xs i id).escaped).Perm (xs ++ [id]) := by
+  unfold insertSpec
+  split
+  · simp only [List.append_nil]
+    have : xs = xs.take i ++ xs.drop i := (List.take_append_drop i xs).symm
+    conv => rhs; rw [this]
+    simp only [List.append_assoc]
+    exact List.Perm.append_left _ (List.perm_append_singleton _ _).symm
+  · simp
+
+theorem insertSpec_len (room : Bool) (xs : List Id) (i : Nat) (id : Id) :
+    (insertSpec room xs i id).final.length ≤ xs.length + (if i ≤ xs.length ∧ room then 1 else 0) := by
+  unfold insertSpec
+  split
+  · rename_i h; simp [h]; omega
+  · simp
+
+theorem extendCloneSpec_perm (n : Nat) : ∀ (xs : List Id) (o : List Outcome),
+    (extendCloneSpec xs n o).final = xs ++ clonedIds n o := by
+  induction n with
+  | zero => intro xs o; simp [extendCloneSpec, clonedIds]
+  | succ n ih =>
+    intro xs o
+    match o with
+    | [] => simp [extendCloneSpec, clonedIds]
+    | .panic :: o => simp [extendCloneSpec, clonedIds]
+    | .ret id :: o => simp [extendCloneSpec, clonedIds, ih]
+
+theorem clonedIds_length_le (n : Nat) : ∀ (o : List Outcome), (clonedIds n o).length ≤ n := by
+  induction n with
+  | zero => intro o; simp [clonedIds]
+  | succ n ih =>
+    intro o
+    match o with
+    | [] => simp [clonedIds]
+    | .panic :: o => simp [clonedIds]
+    | .ret id :: o => simp [clonedIds]; exact ih o
+
+theorem extendWithSpecR_perm (room : Bool) (bombs : List Id) (xs : List Id) (n : Nat) (value : Id) (o : List Outcome) :
+    ((extendWithSpecR room bombs xs n value o).final ++ (extendWithSpecR room bombs xs n value o).dropped ++
+      (extendWithSpecR room bombs xs n value o).escaped).Perm (xs ++ extendWithIns room n value o) := by
+  unfold extendWithSpecR extendWithIns
+  cases room
+  · simp
+  · simp only [↓reduceIte]
+    unfold extendWithSpec
+    cases n with
+    | zero => simp [clonedIds]
+    | succ m =>
+      simp only [Nat.add_sub_cancel]
+      have hf := extendCloneSpec_perm m xs o
+      have ⟨hd, he⟩ := extendCloneSpec_logs m xs o
+      cases hx : (extendCloneSpec xs m o).exit <;> simp [hf, hd, he]
+
+theorem extendWithSpecR_len (room : Bool) (bombs : List Id) (xs : List Id) (n : Nat) (value : Id) (o : List Outcome) :
+    (extendWithSpecR room bombs xs n value o).final.length ≤ xs.length + (if room then n else 0) := by
+  unfold extendWithSpecR
+  cases room
+  · simp
+  · simp only [↓reduceIte]
+    unfold extendWithSpec
+    cases n with
+    | zero => simp
+    | succ m =>
+      have ⟨h1, _⟩ := extendCloneSpec_length_le m xs o
+      simp only
+      split <;> simp <;> omega
+
+theorem extendCloneSpecR_perm (room : Bool) (xs : List Id) (n : Nat) (o : List Outcome) :
+    ((extendCloneSpecR room xs n o).final ++ (extendCloneSpecR room xs n o).dropped ++
+      (extendCloneSpecR room xs n o).escaped).Perm (xs ++ (if room then clonedIds n o else [])) := by
+  unfold extendCloneSpecR
+  cases room
+  · simp
+  · have ⟨hd, he⟩ := extendCloneSpec_logs n xs o
+    simp [extendCloneSpec_perm, hd, he]
+
+theorem extendCloneSpecR_len (room : Bool) (xs : List Id) (n : Nat) (o : List Outcome) :
+    (extendCloneSpecR room xs n o).final.length ≤ xs.length + (if room then n else 0) := by
+  unfold extendCloneSpecR
+  cases room
+  · simp
+  · have ⟨h1, _⟩ := extendCloneSpec_length_le n xs o
+    simpa using h1
+
+theorem resizeSpec_perm (room : Bool) (bombs : List Id) (xs : List Id) (newLen : Nat) (value : Id) (o : List Outcome) :
+    ((resizeSpec room bombs xs newLen value o).final ++ (resizeSpec room bombs xs newLen value o).dropped ++
+      (resizeSpec room bombs xs newLen value o).escaped).Perm (xs ++ resizeIns room xs newLen value o) := by
+  unfold resizeSpec resizeIns
+  split
+  · exact extendWithSpecR_perm ..
+  · have := truncateSpec_perm bombs xs newLen
+    rw [truncateSpec_escaped] at this
+    simp only [List.append_nil] at this ⊢
+    rw [← List.append_assoc]
+    exact List.Perm.append_right _ this
+
+theorem resizeSpec_len (room : Bool) (bombs : List Id) (xs : List Id) (newLen : Nat) (value : Id) (o : List Outcome) :
+    (resizeSpec room bombs xs newLen value o).final.length ≤ xs.length + (if room then newLen - xs.length else 0) := by
+  unfold resizeSpec
+  split
+  · exact extendWithSpecR_len ..
+  · have := truncateSpec_len bombs xs newLen
+    simp only; omega
+
+/-- the bridge: a refinement equation + conservation at list level ⇒ the C06 statement -/
+theorem wf_after_of_eq {α} {v v' : Vec} {r : SpecOut α} {ins : List Id}
+    (hv : v.WF) (hg : Grows v v' v.abs)
+    (hperm : (r.final ++ r.dropped ++ r.escaped).Perm (v.abs ++ ins)) (hcap : r.final.length ≤ v'.cap)
+    (hins : (v.total ++ ins).Nodup) :
+    (v'.after r).WF ∧ (v'.after r).total.Perm (v.total ++ ins) := by
+  have ⟨hwf', htot, habs⟩ := hg.wf hv
+  have := after_WF v' r ins hwf' (by rw [habs]; exact hperm) hcap (by rw [htot]; exact hins)
+  rw [htot] at this
+  exact this
+
+theorem grown_grows' {env : Env} {v : Vec} {n : Nat} (hv : v.WF) :
+    Grows v (grown env v n) v.abs ∧ (room env v n = true → v.len + n ≤ (grown env v n).cap) := by
+  have ⟨hs, hl⟩ := hv.slots_eq
+  unfold grown room
+  cases hr : reserve env v n with
+  | none => exact ⟨Grows.refl hs, by simp⟩
+  | some v' => have ⟨g, hc⟩ := reserve_some hs hl hr; exact ⟨g, fun _ => hc⟩
+
+theorem grownOne_grows' {env : Env} {v : Vec} (hv : v.WF) :
+    Grows v (grownOne env v) v.abs ∧ (roomOne env v = true → v.len + 1 ≤ (grownOne env v).cap) := by
+  have ⟨hs, hl⟩ := hv.slots_eq
+  unfold grownOne roomOne
+  cases hr : reserveOne env v with
+  | none => exact ⟨Grows.refl hs, by simp⟩
+  | some v' => have ⟨g, hc⟩ := reserveOne_some hs hl hr; exact ⟨g, fun _ => hc⟩
 
 end Coll
